@@ -528,4 +528,10 @@ def rules(model: Model, tier: str) -> List[RuleResult]:
                     {("xitorch/_impls/linalg/symeig.py", "davidson"): "real-only path"})
     ADJ = RuleResult(PROP, "C06-A", "operator algebra: composed operators' _rmv is the formal adjoint of _mv (the pull-backs go through A.mm / M.mm)", min_instances=4)
     linopalg.adjoint_structure(model, ADJ)
-    return [R1, R2, R3, R5, R6, Sy, Mr, O, G, K, D, *_hy, Hh, ADJ, *_sub]
+    # the implicit backward differentiates w.r.t. the tensors getparamnames lists: a composed operator must forward its operands' names with
+    # the right prefix, or an operand's tensor resolves to another one (zero / wrong gradient for it) - shared with C11-P
+    from .c11 import _paramnames as _pn
+    PN = RuleResult(PROP, "C06-P", "composed operators forward _getparamnames of their operands with the operand's prefix", min_instances=4)
+    _pn(model, PN)
+
+    return [R1, R2, R3, R5, R6, Sy, Mr, O, G, K, D, *_hy, Hh, ADJ, *_sub, PN]
